@@ -152,8 +152,21 @@ def check_partition_cases(ctx, cases, hcs):
             import re as _re
 
             # printf prints non-finite values as nan / -nan / inf: make them JSON
-            outs = [json.loads(_re.sub(r"-?nan|-?inf", "NaN", line))
-                    for line in p.stdout.splitlines() if line.strip()]
+            outs = []
+            for line in p.stdout.splitlines():
+                if not line.strip():
+                    continue
+                try:
+                    outs.append(json.loads(_re.sub(r"-?nan|-?inf", "NaN", line)))
+                except json.JSONDecodeError:
+                    # the library wrote a diagnostic of its own into the output (e.g.
+                    # "n_aryGrayCodeCounter::initialize: Wrong value of initial_offset"):
+                    # the partition handed an impossible job to the Gray-code counter
+                    m = _re.search(r"[A-Za-z_:]+: [A-Za-z ]{8,80}", line)
+                    raise Violation(
+                        f"C11:partition:kernel-diagnostic:{'omp' if openmp else 'seq'}",
+                        f"forced hardware_concurrency values {hcs}: the native kernel printed "
+                        f"{(m.group(0) if m else line[-120:])!r}")
             if len(outs) != len(cases):
                 raise HarnessError("partition harness output truncated")
             for c, o in zip(cases, outs):
